@@ -350,7 +350,11 @@ def op_fix_normals(run, ctx):
     comps = bodies(ctx.F)
     feat = {"route": route, "flips": flip_class(ctx.F, flip, [np.array(c) for c in comps]),
             "normals_cached": "yes" if cached else "no"}
-    m = G.to_trimesh(ctx.V, Fin)
+    # `scale`: the same solid in small units (a 2 mm part in a model in metres has |volume| < 1e-8):
+    # the sign of a body's volume does not depend on the unit
+    scale = float(ctx.opts.get("scale", 1.0))
+    feat["scale"] = "unit" if scale == 1.0 else "%g" % scale
+    m = G.to_trimesh(np.asarray(ctx.V, dtype=np.float64) * scale, Fin)
     before_V = np.asarray(m.vertices).copy()
     if cached:
         m.face_normals  # noqa: populate the cache so that a stale copy can be seen afterwards
@@ -971,6 +975,9 @@ def fix_normals_cases(run, tag, V, F, flips_iter, single_body):
             route = "method"
         execute(run, make_case("fix_normals", tag, V, F, flip=flip, route=route, cached=bool((i // 3) % 2)),
                 nontrivial=len(flip) > 0)
+        if i % 4 == 1 and len(flip) > 0:
+            execute(run, make_case("fix_normals", tag, V, F, flip=flip, route=route, cached=bool((i // 3) % 2), scale=2e-4),
+                    nontrivial=True)
 
 
 def workload(run):
@@ -1061,7 +1068,10 @@ def workload(run):
         if n <= 64:
             E = np.linalg.norm(V[F][:, [0, 1, 2]].astype(float) - V[F][:, [1, 2, 0]].astype(float), axis=2)
             L = float(E.max())
-            for rep, (frac, cap) in enumerate([(1.7, 10), (0.61, 10), (0.37, 10), (0.23, 3), (0.23, 1), (0.55, 0)][: (4 if quick else 6)]):
+            # 0.93 / 0.78: just below the longest edge - above the largest bounding-box extent of
+            # meshes whose longest edge is a face or body diagonal (an "already small enough" test
+            # on extents would wrongly skip them)
+            for rep, (frac, cap) in enumerate([(1.7, 10), (0.93, 10), (0.61, 10), (0.78, 10), (0.37, 10), (0.23, 3), (0.23, 1), (0.55, 0)][: (5 if quick else 8)]):
                 execute(run, make_case("subdivide_to_size", tag, V, F, max_edge=L * frac + 0.001 * rep, max_iter=cap,
                                        route=("function", "method")[rep % 2]))
         # ---- Loop
